@@ -11,13 +11,14 @@ import (
 // writes. (Access logs: C05; refresh register: C14; notifications: C06.)
 func init() {
 	register("C01", checkC01)
+	replayers["c01/concrete"] = replayConc
 	replayers["c01/step"] = func(c *Ctx, raw []byte) []string {
-		return replayStepCase(c, raw, AspState|AspI|AspMem|AspPortsOut)
+		return replayStepCase(c, raw, AspState|AspI|AspMem|AspPortsOut|AspFrame)
 	}
 }
 
 func checkC01(c *Ctx) {
-	c.Rule = "every encoding of the measured implemented set x lattice (4 all-distinct base vectors; each of 20 dimensions varied alone over its boundary set; aliasing pairs; index+d and PC-wrap pairs; all 256 d for indexed forms; thorough: all value pairs of the 9 pointer dimensions) x all 256 F; one real Step compared with refz80 on the complete state, the memory image and the port writes. Lattice points that coincide for an encoding are skipped (hash set), so cases are distinct; non-trivial = post-state differs from pre-state beyond PC/R or a data/port access happened (counted)."
+	c.Rule = "every encoding of the measured implemented set x lattice (4 all-distinct base vectors; each of 20 dimensions varied alone over its boundary set; aliasing pairs; index+d and PC-wrap pairs; all 256 d for indexed forms; thorough: all value pairs of the 9 pointer dimensions) x all 256 F; one real Step compared with refz80 on the complete state, the memory image and the port writes; at every memory/port callback of the Step the registers the instruction does not use (unchanged per refz80; A..L, alternates, I, IX, IY) hold their values, and block input shows the device the undecremented B. Lattice points that coincide for an encoding are skipped (hash set), so cases are distinct; non-trivial = post-state differs from pre-state beyond PC/R or a data/port access happened (counted). Concrete-type pass: every implemented encoding x quick lattice x 2 (thorough 16) F values on the package's own device types (DumbMemory of 3 lengths incl. longer than 64K, MapMemory, DumbIO) handed over unwrapped vs behind an opaque forwarding wrapper: same post-state and same device contents (a type-switched fast path must not deviate from the interface path that the main pass compares with refz80)."
 	c.Bound = "lattice v1 " + c.Tier
 	var slow chan string
 	if !c.Quick() {
@@ -39,7 +40,18 @@ func checkC01(c *Ctx) {
 	} else {
 		c.Set("reference_model_selfcheck", rep)
 	}
-	runStepConformance(c, stepConfOpts{name: "c01/step", aspects: AspState | AspI | AspMem | AspPortsOut})
+	runStepConformance(c, stepConfOpts{name: "c01/step", aspects: AspState | AspI | AspMem | AspPortsOut | AspFrame})
+	if set, err := implementedSet(c); err == nil {
+		var encs []*Enc
+		for i := range set.Encs {
+			encs = append(encs, &set.Encs[i])
+		}
+		fs := []uint8{0x45, 0xBA}
+		if !c.Quick() {
+			fs = c02FSet(true)
+		}
+		runConcreteTypes(c, "c01/concrete", encs, fs)
+	}
 	if slow != nil {
 		rep := <-slow
 		c.Set("reference_model_silicon_slow_path", rep)
